@@ -6,6 +6,9 @@ DumpEdge ==
         r == ApplyList(doc, ps)
     IN PrintT(<<"EDGE", ToJson([path |-> hist, patches |-> ps, ok |-> r.ok, why |-> r.why, post |-> doc'])>>)
 
+\* C14: every distinct document with the patch list the specification derives from it
+DumpDoc == PrintT(<<"DOC", ToJson([doc |-> doc, patches |-> DocToPatches(doc)])>>)
+
 View == <<doc, len>>
 NPatchLists == Cardinality(PatchLists)
 =============================================================================
